@@ -31,6 +31,14 @@ Local Open Scope N_scope.
 
 Section Interleave.
   Variable mix : N -> N -> N.          (* the scan's private computation: any function *)
+  (* Does scanner-side code write the ENGINE-WIDE clock?  Instantiated with the
+     negation of Gen/ConcGen.clock_single_writer, computed from the generated
+     table of every write to the engine epoch / HEARTBEAT_COUNTER / a store's
+     epoch deadline.  In the source the search-phase timeout of a scanner
+     (search_for_patterns host function) sets ITS OWN store's deadline to 0;
+     when [bump] is true the model instead lets that step advance the shared
+     epoch, which is what such a write would do. *)
+  Variable bump : bool.
 
   Inductive bop := BWork (d : N) | BPollC | BPollE.
   Record scan := mkScan { s_timeout : option N;      (* set_timeout, in whole seconds (rounded up) *)
@@ -58,7 +66,7 @@ Section Interleave.
   Definition init (progs : list (list item)) : sys := mkSys shared0 (map thr0 progs).
 
   (* effect of a thread step on the shared state *)
-  Inductive effect := ENone | EEngine | EStartHb.
+  Inductive effect := ENone | EEngine | EStartHb | EBumpEpoch.
 
   (* the step of a thread, as a function of the clock values it reads *)
   Definition thr_step (c e : N) (t : thr) : option (thr * effect) :=
@@ -78,7 +86,7 @@ Section Interleave.
         | BWork d :: r => Some (mkThr (todo t) (Some (mkCur (dl_c k) (dl_e k) (mix (acc k) d) r)) (results t), ENone)
         | BPollC :: r =>
             if counter_poll_fires c (dl_c k)
-            then Some (mkThr (todo t) None (RTimeout :: results t), ENone)
+            then Some (mkThr (todo t) None (RTimeout :: results t), if bump then EBumpEpoch else ENone)
             else Some (mkThr (todo t) (Some (mkCur (dl_c k) (dl_e k) (acc k) r)) (results t), ENone)
         | BPollE :: r =>
             if epoch_poll_fires e (dl_e k)
@@ -96,6 +104,8 @@ Section Interleave.
     | EStartHb =>
         if hb_started s then s
         else mkShared (counter s) (epoch s) true (hb_phase s) (engine_init s) (S (hb_spawns s)) (engine_creations s)
+    | EBumpEpoch =>
+        mkShared (counter s) (epoch s + 1) (hb_started s) (hb_phase s) (engine_init s) (hb_spawns s) (engine_creations s)
     end.
 
   Inductive label := LThread (i : nat) | LHeartE | LHeartC.
